@@ -223,13 +223,21 @@ def _faces_match(g, expected, fails, site, ctx, allow_reflection=False, as_multi
     if conn.shape[0] != len(expected):
         fails.append(Failure("faces_match", site, "n_face", f"grid has {conn.shape[0]} faces, source describes {len(expected)}"))
         return
-    got = []
+    got, distinct = [], []
     for row in conn:
         idx = [int(i) for i in row if i != FILL]
         if any(i < 0 or i >= len(lon) for i in idx):
             fails.append(Failure("faces_match", site, "index-out-of-range", f"row {row.tolist()}"))
             return
         got.append([S.ll2xyz(lon[i], lat[i]) for i in idx])
+        distinct.append(len(set(idx)))
+    # tolerance-free: the corners of a source face are distinct nodes however close together (a reader may pad a
+    # short face by repeating a corner, so what is counted is distinct nodes per face)
+    want = [len(f) for f in expected]
+    if (sorted(distinct) != sorted(want)) if as_multiset else (distinct != want):
+        k = next((i for i in range(len(want)) if distinct[i] != want[i]), 0) if not as_multiset else -1
+        fails.append(Failure("faces_match", site, "corner-count", f"distinct nodes per face {distinct[:12]} but the source faces have {want[:12]} corners (first difference at face {k})"))
+        return
 
     def same(a, b):
         if S.cyclic_equal_positions(a, b):
